@@ -1,21 +1,31 @@
 #!/bin/bash
 # run.sh <Cnn> <quick|thorough>   |   run.sh replay <path>
 # Rebuilds the checkers from /repo's current working tree (go build is incremental) and runs one check.
+# Safe to run several instances at once: builds are serialised with flock and every instance runs its
+# own copy of the binaries / overlay directory.
 cd "$(dirname "$0")"
 export GOFLAGS=-mod=mod GOPROXY=off GOSUMDB=off GOTOOLCHAIN=local GOCACHE=/verif/.gocache
 export VERIF_ROOT="$(pwd)"
 REPO=${VERIF_REPO:-/repo}
 mkdir -p bin evidence replays
+RUN=bin/run.$$
+mkdir -p $RUN
+trap 'rm -rf "$RUN" ".overlay.$$"' EXIT
+build() { # build <output> <go build args...>
+  local out=$1; shift
+  flock bin/.buildlock go build -trimpath -o "$out" "$@"
+}
 case "$1" in
   C01|C12|C13|C14|C18)
     # streams checks: regenerate the binding table from the current vocabulary files, then build
-    go run ./cmd/mkbind bind/zz_bind.go github.com/go-fed/activity/streams \
-       $REPO/astool/activitystreams.jsonld $REPO/astool/security-v1.jsonld $REPO/astool/toot.jsonld $REPO/astool/forgefed.jsonld || exit 2
-    if ! go build -trimpath -o bin/verifs ./cmd/verifs 2> bin/build-s.err; then
-      cat bin/build-s.err >&2
-      if grep -q "bind/zz_bind.go" bin/build-s.err; then
+    # (the table is a build input shared by all instances: regenerate and build under one lock)
+    if ! flock bin/.bindlock bash -c "go run ./cmd/mkbind bind/zz_bind.go github.com/go-fed/activity/streams \
+         $REPO/astool/activitystreams.jsonld $REPO/astool/security-v1.jsonld $REPO/astool/toot.jsonld $REPO/astool/forgefed.jsonld \
+         && go build -trimpath -o $RUN/verifs ./cmd/verifs" 2> $RUN/build-s.err; then
+      cat $RUN/build-s.err >&2
+      if grep -q "bind/zz_bind.go" $RUN/build-s.err; then
         # the generated API lacks a type / property / predicate the ontology prescribes
-        cp bin/build-s.err replays/$1-binding-does-not-compile.txt
+        cp $RUN/build-s.err replays/$1-binding-does-not-compile.txt
         python3 - "$1" "$2" <<'PY'
 import json,sys
 id,tier=sys.argv[1],sys.argv[2]
@@ -29,42 +39,45 @@ PY
       echo "BUILD-ERROR: the streams checker does not compile against the current tree" >&2
       exit 2
     fi
-    exec ./bin/verifs "$@"
+    ./$RUN/verifs "$@"
+    exit $?
     ;;
 esac
 if [ "$1" = "C08" ]; then
   # supplementary free-running pass under the race detector
-  VERIF_TIER=$2 timeout 1200 go test -race -count=1 ./racetest/ -run TestC08 > bin/c08race.log 2>&1
-  export VERIF_C08_RACE="$(pwd)/bin/c08race.log"
+  VERIF_TIER=$2 timeout 1200 go test -race -count=1 ./racetest/ -run TestC08 > $RUN/c08race.log 2>&1
+  export VERIF_C08_RACE="$(pwd)/$RUN/c08race.log"
 fi
 if [ "$1" = "C11" ]; then
   # supplementary free-running pass: concurrent decoding under the race detector
-  timeout 900 go test -race -count=1 ./racetest/ -run TestC11 > bin/c11race.log 2>&1
-  export VERIF_C11_RACE="$(pwd)/bin/c11race.log"
+  timeout 900 go test -race -count=1 ./racetest/ -run TestC11 > $RUN/c11race.log 2>&1
+  export VERIF_C11_RACE="$(pwd)/$RUN/c11race.log"
 fi
 if [ "$1" = "C15" ]; then
-  go build -trimpath -o bin/verifa ./cmd/verifa || { echo "BUILD-ERROR: verifa" >&2; exit 2; }
-  exec ./bin/verifa "$@"
+  build $RUN/verifa ./cmd/verifa || { echo "BUILD-ERROR: verifa" >&2; exit 2; }
+  ./$RUN/verifa "$@"
+  exit $?
 fi
 if [ "$1" = "C19" ]; then
   # schedule exploration needs pub/transport.go rebuilt through the sync overlay; if the current
   # file cannot be rewritten or built that way the check runs without it (exhaustive:false)
   unset VERIF_C19_SCHED
-  rm -rf .overlay
-  if go run ./cmd/mkoverlay $REPO "$(pwd)/.overlay" 2> bin/overlay.err && \
-     go build -tags verifoverlay -overlay .overlay/overlay.json -o bin/verift ./cmd/verift 2>> bin/overlay.err; then
-    export VERIF_C19_SCHED="$(pwd)/bin/verift"
+  OV="$(pwd)/.overlay.$$"
+  if go run ./cmd/mkoverlay $REPO "$OV" 2> $RUN/overlay.err && \
+     flock bin/.buildlock go build -tags verifoverlay -overlay $OV/overlay.json -o $RUN/verift ./cmd/verift 2>> $RUN/overlay.err; then
+    export VERIF_C19_SCHED="$(pwd)/$RUN/verift"
   else
-    echo "C19: sync overlay unavailable for the current pub/transport.go:" >&2; head -5 bin/overlay.err >&2
+    echo "C19: sync overlay unavailable for the current pub/transport.go:" >&2; head -5 $RUN/overlay.err >&2
   fi
   # supplementary free-running pass under the race detector
-  VERIF_TIER=$2 timeout 900 go test -race -count=1 ./racetest/ -run TestC19 > bin/c19race.log 2>&1
-  export VERIF_C19_RACE="$(pwd)/bin/c19race.log"
+  VERIF_TIER=$2 timeout 900 go test -race -count=1 ./racetest/ -run TestC19 > $RUN/c19race.log 2>&1
+  export VERIF_C19_RACE="$(pwd)/$RUN/c19race.log"
 fi
-if ! go build -trimpath -o bin/verif ./cmd/verif 2> bin/build.err; then
+if ! build $RUN/verif ./cmd/verif 2> $RUN/build.err; then
   # A tree that no longer compiles against the checkers is a tool error, not a verdict.
-  cat bin/build.err >&2
+  cat $RUN/build.err >&2
   echo "BUILD-ERROR: the checker does not compile against the current tree" >&2
   exit 2
 fi
-exec ./bin/verif "$@"
+./$RUN/verif "$@"
+exit $?
